@@ -167,7 +167,7 @@ type readerSpec struct {
 	// accompanies the Read that delivers the last of those bytes.
 	FailAt      int  `json:",omitempty"`
 	ErrWithData bool `json:",omitempty"`
-	Class   string
+	Class       string
 }
 
 // sizeLimit: no record of the harness's dumps is anywhere near this; see vbinary.
